@@ -63,6 +63,9 @@ COMPONENTS = [
               rule="Auer with empirical per-design widths: stub variances (ratio <= 100) or heteroscedastic real problems"),
     Component("single_step_injected", lambda c: C02.check_single_step(c, "pareto"), strategy=lambda: C02.st_single(C02.ELIM), quick=400, thorough=12000,
               rule="regions and S/P/U injected directly (Auer: modeling() on a stub posterior with unequal variances)"),
+    Component("useful_set_rebuilt_from_all_of_P", lambda c: C02.check_single_step(c, "pareto"),
+              strategy=lambda: C02.st_single(["PaVeBa", "PaVeBaGP", "PaVeBaPartialGP"], close=True), quick=250, thorough=8000,
+              rule="PaVeBa family: 3..6 regions within 0.1..0.5 eps of each other, S and P a partition, injected useful set empty or one member of P"),
     Component("auer_single_round_unequal_widths", lambda c: C02.check_single_step(c, "pareto"), strategy=st_auer_widths, quick=600, thorough=20000,
               rule="Auer modeling()/discarding()/pareto_updating() on a stub posterior: 1-2 clearly dominated designs plus 2..5 designs within +-3 widths, "
                    "variance ratios up to 100, round 1..6"),
